@@ -60,6 +60,7 @@ func (c *netFD) Close() (err error) {
 		return nil
 	}
 	if !c.detaching && c.fd > 2 {
+		vp(vpFdClose, nil, int64(c.fd), 1)
 		err = syscall.Close(c.fd)
 		if err != nil {
 			logger.Printf("NETPOLL: netFD[%d] close error: %s", c.fd, err.Error())
